@@ -352,9 +352,10 @@ func judge(s *tokSpec, vs vSettings, now time.Time) verdict {
 		v.Reject = append(v.Reject, "exp-missing")
 	} else {
 		d := time.Unix(s.Base+s.ExpOff, 0).Sub(now)
+		// an offset may make expiry stricter (the library tests now+offset < exp), never laxer: "it is unexpired"
 		switch {
 		case d > o+band:
-		case d < -(o + band):
+		case d < -band:
 			v.Reject = append(v.Reject, "expired")
 		default:
 			v.Grey = append(v.Grey, "exp-in-band")
@@ -369,8 +370,10 @@ func judge(s *tokSpec, vs vSettings, now time.Time) verdict {
 		}
 	} else {
 		f := time.Unix(s.Base+s.IatOff, 0).Sub(now)
+		// "not issued in the future": an iat that is not in the future must pass whatever the offset; the offset
+		// is a tolerance on the reject side only (the library refuses iat > now+offset)
 		switch {
-		case f < -(o + band):
+		case f < -band:
 		case f > o+band:
 			v.Reject = append(v.Reject, "iat-in-future")
 		default:
@@ -378,9 +381,10 @@ func judge(s *tokSpec, vs vSettings, now time.Time) verdict {
 		}
 		if vs.MaxAge > 0 {
 			age := -f
+			// "not more than the allowed age ago": the statement names no tolerance here (nor does the library apply one)
 			switch {
-			case age < vs.MaxAge-o-band:
-			case age > vs.MaxAge+o+band:
+			case age < vs.MaxAge-band:
+			case age > vs.MaxAge+band:
 				v.Reject = append(v.Reject, "iat-too-old")
 			default:
 				v.Grey = append(v.Grey, "iat-age-band")
@@ -443,7 +447,7 @@ func baseline(r *rand.Rand, vs vSettings, iss string) *tokSpec {
 	}
 	setAud(s, "array", vs.Issuer, r)
 	o := int64(vs.Offset / time.Second)
-	s.IatOff = -(o + pick(r, int64(3), 4, 10))
+	s.IatOff = -pick(r, int64(3), 4, 5) // not in the future whatever the offset, and younger than the smallest max age
 	if vs.MaxAge == 0 && r.IntN(4) == 0 {
 		s.IatOff = -pick(r, int64(3600), 86400*3650)
 	}
@@ -549,16 +553,16 @@ func mutate(r *rand.Rand, s *tokSpec, vs vSettings, dim int) {
 			setAud(s, pick(r, audBad...), vs.Issuer, r)
 		}
 	case 3: // iat
-		opts := []int64{o + 3, o + 10, 3600, 86400 * 3650, 0, 1, -1, o, -o, -(o + 3), -(o + 10)}
+		opts := []int64{o + 3, o + 10, 3600, 86400 * 3650, 0, 1, -1, o, -o, -(o + 3), -(o + 10), -3, -10, 3, 10}
 		if m > 0 {
-			opts = append(opts, -(m + o + 3), -(m + o + 10), -(m + 3600), -86400*3650, -m, -(m + 1), -(m - 1), -(m - o - 3), -(m - o - 10))
+			opts = append(opts, -(m + o + 3), -(m + o + 10), -(m + 3600), -86400*3650, -m, -(m + 1), -(m - 1), -(m - o - 3), -(m - o - 10), -(m + 3), -(m + 10), -(m - 3), -(m - 10))
 		} else {
 			opts = append(opts, -3600, -86400*3650)
 		}
 		s.IatOff = pick(r, opts...)
 		s.IatAbs = r.IntN(12) == 0
 	case 4: // exp
-		s.ExpOff = pick(r, -(o + 3), -(o + 10), -3600, -86400*3650, 0, 1, -1, o, -o, o+1, o+3, o+10, 3600)
+		s.ExpOff = pick(r, -(o + 3), -(o + 10), -3600, -86400*3650, 0, 1, -1, o, -o, o+1, o+3, o+10, 3600, -3, -3, -10, -10, -(o / 2), -(o - 3), 3, 10)
 		s.ExpAbs = r.IntN(12) == 0
 	case 5: // signer
 		var names []string
